@@ -46,6 +46,7 @@ type c08Model struct {
 	mfs   int64
 	dead  bool // GOAWAY with an error code expected
 	fuzzy bool // two streams competed for the connection window: split unknown
+	gs    bool // the server has started a graceful shutdown (GOAWAY NO_ERROR): no new streams
 	s     [2]c08mStream
 }
 
@@ -99,7 +100,12 @@ func (m *c08Model) enabled(ev c08srvEv) bool {
 	case "SETMFS":
 		return ev.arg(0) != m.mfs
 	case "H":
-		return !m.s[1].opened
+		// a stream opened after a graceful GOAWAY is beyond its last stream id:
+		// the server ignores it and the property says nothing about it
+		return !m.s[1].opened && !m.gs
+	case "GS":
+		// worth issuing once, while some response can still be in progress
+		return !m.gs && (m.s[0].alive || m.s[1].alive)
 	case "W", "DONE":
 		s := &m.s[c08Idx(ev.arg(0))]
 		return s.alive && (s.idle || m.fuzzy)
@@ -163,6 +169,8 @@ func (m *c08Model) apply(ev c08srvEv) {
 	case "RST":
 		s := &m.s[c08Idx(ev.arg(0))]
 		s.alive, s.idle = false, false
+	case "GS":
+		m.gs = true
 	}
 }
 
@@ -191,6 +199,7 @@ func c08Alphabet(iws, mfss, wsizes, wus []int64) []c08srvEv {
 	for _, id := range []int64{1, 3} {
 		a = append(a, c08srvEv{K: "RST", A: []int64{id}})
 	}
+	a = append(a, c08srvEv{K: "GS"})
 	for _, v := range mfss {
 		a = append(a, c08srvEv{K: "SETMFS", A: []int64{v}})
 	}
@@ -279,8 +288,10 @@ type c08Monitor struct {
 	setsSent     int
 	pending      []c08PendSet // SETTINGS sent, not yet acknowledged
 	streams      map[uint32]*c08monStream
-	goaway       bool
-	goawayCode   ErrCode
+	goaway       bool    // any GOAWAY seen
+	goawayCode   ErrCode // the first error code seen in a GOAWAY (NO_ERROR while only graceful ones were seen)
+	graceful     bool    // a GOAWAY(NO_ERROR) was seen: graceful shutdown, streams <= gsLast are still served
+	gsLast       uint32  // last stream id of the first graceful GOAWAY
 	connOverflow bool // we overflowed the connection window or a stream window through SETTINGS
 	lastKind     string
 }
@@ -377,9 +388,25 @@ func (m *c08Monitor) frame(w *vx.W, f c08srvFrame, ctx string) {
 		}
 	case FrameGoAway:
 		m.goaway = true
-		m.goawayCode = f.Code
+		if f.Code == ErrCodeNo && !m.graceful {
+			m.graceful = true
+			m.gsLast = f.Last
+		}
+		if m.goawayCode == ErrCodeNo {
+			m.goawayCode = f.Code
+		}
 	}
 }
+
+// fatal reports whether the peer announced a connection error: from then on
+// it sends nothing more and the windows are no longer meaningful. A graceful
+// GOAWAY(NO_ERROR) is not fatal: RFC 7540 §6.8 has the sender complete every
+// stream up to the last stream id it named, so window enforcement and progress
+// still apply to those streams.
+func (m *c08Monitor) fatal() bool { return m.goaway && m.goawayCode != ErrCodeNo }
+
+// served reports whether the peer still has to serve stream s.
+func (m *c08Monitor) served(s *c08monStream) bool { return !m.graceful || s.id <= m.gsLast }
 
 // ---------------------------------------------------------------------------
 // Runner.
@@ -392,6 +419,9 @@ type c08Result struct {
 	overflowSeen     bool
 	negWindowSeen    bool
 	splitSeen        bool
+	gracefulSeen     bool // the server sent GOAWAY(NO_ERROR)
+	dataAfterGS      bool // DATA on a stream <= its last stream id after that GOAWAY
+	blockedInGS      bool // a response was blocked on flow control at quiescence during the graceful shutdown
 }
 
 func c08RunCase(w *vx.W, t testing.TB, cs c08srvCase) (res c08Result, harnessErr string) {
@@ -417,10 +447,14 @@ func c08RunCase(w *vx.W, t testing.TB, cs c08srvCase) (res c08Result, harnessErr
 			}
 			if f.Type == FrameData {
 				res.dataFrames++
+				if mon.graceful && f.Stream <= mon.gsLast && f.Len > 0 {
+					res.dataAfterGS = true
+				}
 			}
 			res.trace = append(res.trace, f.String())
 			mon.frame(w, f, ctx)
 		}
+		res.gracefulSeen = mon.graceful
 		if env.wireErr != "" {
 			w.Failf("C08/wire/unparseable-server-output", "%s: reading the server's output failed: %s", ctx, env.wireErr)
 		}
@@ -431,15 +465,19 @@ func c08RunCase(w *vx.W, t testing.TB, cs c08srvCase) (res c08Result, harnessErr
 	}
 
 	quiescent := func(ctx string) {
-		if mon.goaway || env.connClosed {
+		if mon.fatal() || env.connClosed {
 			return
+		}
+		during := ""
+		if mon.graceful {
+			during = "/during-graceful-shutdown"
 		}
 		if len(mon.pending) > 0 {
 			return // SETTINGS not acknowledged: C15's concern, windows ambiguous
 		}
 		// Progress (L4): nothing else can move: every goroutine is durably blocked.
 		for _, s := range mon.streams {
-			if !s.alive() || s.overflow {
+			if !s.alive() || s.overflow || !mon.served(s) {
 				continue
 			}
 			if s.base < 0 {
@@ -447,26 +485,29 @@ func c08RunCase(w *vx.W, t testing.TB, cs c08srvCase) (res c08Result, harnessErr
 			}
 			if s.written > s.onwire {
 				res.blockedSeen = true
+				if mon.graceful {
+					res.blockedInGS = true
+				}
 				if s.base > 0 && mon.cw > 0 {
-					w.Failf("C08/progress/stalled-with-open-windows/after-"+mon.lastKind, "%s: stream %d has %d handler bytes not on the wire although stream window=%d and connection window=%d are positive and the system is quiescent", ctx, s.id, s.written-s.onwire, s.base, mon.cw)
+					w.Failf("C08/progress/stalled-with-open-windows/after-"+mon.lastKind+during, "%s: stream %d has %d handler bytes not on the wire although stream window=%d and connection window=%d are positive and the system is quiescent", ctx, s.id, s.written-s.onwire, s.base, mon.cw)
 				}
 			}
 		}
 		// White-box cross-check of the server's own counters.
 		snap := env.st.sc.C08srvSnapshot()
-		if !snap.OK || snap.InGoAway {
+		if !snap.OK || (snap.InGoAway && !(mon.graceful && ErrCode(snap.GoAwayCode) == ErrCodeNo)) {
 			return
 		}
 		if int64(snap.ConnFlow) != mon.cw {
-			w.Failf("C08/wb/conn-window-mismatch/after-"+mon.lastKind, "%s: sc.flow.n=%d but the RFC 7540 connection send window is %d", ctx, snap.ConnFlow, mon.cw)
+			w.Failf("C08/wb/conn-window-mismatch/after-"+mon.lastKind+during, "%s: sc.flow.n=%d but the RFC 7540 connection send window is %d", ctx, snap.ConnFlow, mon.cw)
 		}
 		for _, ss := range snap.Streams {
 			s := mon.streams[ss.ID]
-			if s == nil || !s.alive() || s.overflow {
+			if s == nil || !s.alive() || s.overflow || !mon.served(s) {
 				continue
 			}
 			if int64(ss.Flow) != s.base {
-				w.Failf("C08/wb/stream-window-mismatch/after-"+mon.lastKind, "%s: stream %d st.flow.n=%d but the RFC 7540 stream send window is %d", ctx, ss.ID, ss.Flow, s.base)
+				w.Failf("C08/wb/stream-window-mismatch/after-"+mon.lastKind+during, "%s: stream %d st.flow.n=%d but the RFC 7540 stream send window is %d", ctx, ss.ID, ss.Flow, s.base)
 			}
 		}
 	}
@@ -477,11 +518,12 @@ func c08RunCase(w *vx.W, t testing.TB, cs c08srvCase) (res c08Result, harnessErr
 		if err != nil {
 			return res, err.Error()
 		}
-		if mon.goaway || env.connClosed {
+		if mon.fatal() || env.connClosed {
 			break
 		}
 		ctx := fmt.Sprintf("event %d %s", i, es)
 		expectStreamFC, expectConnFC := uint32(0), false
+		wasGraceful := mon.graceful
 		applied := true
 		switch ev.K {
 		case "SETIW", "SETMFS":
@@ -504,8 +546,17 @@ func c08RunCase(w *vx.W, t testing.TB, cs c08srvCase) (res c08Result, harnessErr
 			mon.pending = append(mon.pending, p)
 			mon.setsSent++
 			env.writeErr(env.st.fr.WriteSettings(set))
+		case "GS":
+			if mon.graceful {
+				applied = false
+				break
+			}
+			// what http.Server.Shutdown does to every HTTP/2 connection
+			env.st.sc.StartGracefulShutdown()
 		case "H":
-			if nextID > 3 {
+			if nextID > 3 || mon.graceful {
+				// (a stream opened after a graceful GOAWAY is beyond its last
+				// stream id: not the property's concern, never issued)
 				applied = false
 				break
 			}
@@ -586,6 +637,13 @@ func c08RunCase(w *vx.W, t testing.TB, cs c08srvCase) (res c08Result, harnessErr
 		if expectConnFC {
 			res.overflowSeen = true
 			mon.connOverflow = true
+			if wasGraceful {
+				// The server's GOAWAY is already on the wire; whether it must
+				// send a second one carrying the error is not this property's
+				// concern. The client's view of the windows is undefined now:
+				// the case ends (the frames of this step were checked above).
+				return
+			}
 			if !(mon.goaway && mon.goawayCode == ErrCodeFlowControl) {
 				w.Failf("C08/overflow/no-connection-flow-control-error/after-"+mon.lastKind, "%s: a flow-control window was pushed above 2^31-1 but the server did not send GOAWAY(FLOW_CONTROL_ERROR) (goaway=%v code=%v)", ctx, mon.goaway, mon.goawayCode)
 			}
@@ -633,6 +691,14 @@ func c08Check(c *vx.Ctx) func(w *vx.W, cs c08srvCase) {
 		default:
 			w.Outcome("no-data")
 		}
+		switch {
+		case res.dataAfterGS:
+			w.Outcome("graceful-shutdown:data-sent-after-goaway")
+		case res.blockedInGS:
+			w.Outcome("graceful-shutdown:blocked-on-flow-control")
+		case res.gracefulSeen:
+			w.Outcome("graceful-shutdown:nothing-pending")
+		}
 		if res.skipped > 0 {
 			w.Outcome("model-real-disagreement-skipped-event")
 		}
@@ -659,6 +725,8 @@ func TestVerif_C08(t *testing.T) {
 		seedTwo := []string{"SETIW(3)", "H", "H", "W(1,5)"}      // two streams, handler 1 blocked on its stream window
 		seedNeg := []string{"H", "W(1,20)", "SETIW(3)", "H"}     // stream 1 window negative (-17), stream 3 fresh
 		seedBig := []string{"SETMFS(16777215)", "H", "WU(1,100000)", "WU(0,100000)"} // frame-size splitting territory
+		// graceful shutdown under way (GOAWAY NO_ERROR, last stream id 3) with both responses blocked on their stream windows
+		seedGS := []string{"SETIW(3)", "H", "H", "W(1,5)", "W(3,5)", "GS"}
 		var parts []part
 		if c.Quick() {
 			parts = []part{
@@ -667,6 +735,7 @@ func TestVerif_C08(t *testing.T) {
 				{"9218/two-streams-blocked", c08srvCfg{Sched: "9218"}, seedTwo, c08Alphabet(iws, nil, small, wus), 3, 0},
 				{"random/negative-window", c08srvCfg{Sched: "random"}, seedNeg, c08Alphabet(iws, nil, small, wus), 3, 0},
 				{"7540/big-writes", c08srvCfg{Sched: "7540"}, seedBig, c08Alphabet([]int64{0, 65535}, mfss, big, []int64{1, 100}), 3, 0},
+				{"9218/graceful-shutdown-blocked", c08srvCfg{Sched: "9218"}, seedGS, c08Alphabet(iws, nil, small, wus), 3, 0},
 			}
 		} else {
 			// every scheduler at the quick bounds first, then the deeper levels
@@ -677,6 +746,7 @@ func TestVerif_C08(t *testing.T) {
 					part{sch + "/two-streams-blocked", c08srvCfg{Sched: sch}, seedTwo, c08Alphabet(iws, nil, small, wus), 3, 0},
 					part{sch + "/negative-window", c08srvCfg{Sched: sch}, seedNeg, c08Alphabet(iws, nil, small, wus), 3, 0},
 					part{sch + "/big-writes", c08srvCfg{Sched: sch}, seedBig, c08Alphabet([]int64{0, 65535}, mfss, big, []int64{1, 100}), 3, 0},
+					part{sch + "/graceful-shutdown-blocked", c08srvCfg{Sched: sch}, seedGS, c08Alphabet(iws, nil, small, wus), 3, 0},
 				)
 			}
 			for _, sch := range []string{"9218", "rr"} {
@@ -685,13 +755,15 @@ func TestVerif_C08(t *testing.T) {
 					part{sch + "/deep/big-writes", c08srvCfg{Sched: sch}, seedBig, c08Alphabet([]int64{0, 65535}, mfss, big, []int64{1, 100}), 4, 4},
 					part{sch + "/deep/two-streams-blocked", c08srvCfg{Sched: sch}, seedTwo, c08Alphabet(iws, nil, small, wus), 4, 4},
 					part{sch + "/deep/negative-window", c08srvCfg{Sched: sch}, seedNeg, c08Alphabet(iws, nil, small, wus), 4, 4},
+					part{sch + "/deep/graceful-shutdown-blocked", c08srvCfg{Sched: sch}, seedGS, c08Alphabet(iws, nil, small, wus), 4, 4},
 				)
 			}
 			parts = append(parts, part{"9218/deep/empty", c08srvCfg{Sched: "9218"}, nil, c08Alphabet(iws, mfss, small, wus), 5, 5})
 		}
-		c.Rule("EV: for each part (write scheduler x seed prefix) every event sequence of depth 1..D after the seed over the menu {H (<=2 GET streams), handler Write(n)+Flush, handler return, WINDOW_UPDATE(conn|stream, k), SETTINGS INITIAL_WINDOW_SIZE / MAX_FRAME_SIZE, RST_STREAM}, pruned by a predictive model (events on streams that are not open or whose handler is blocked are not issued) and decided on the real state at run time; each sequence runs on a fresh real http2.Server in its own synctest bubble; after every event: quiescence, drain all frames, RFC 7540 §6.9 window accounting on every DATA frame, frame length vs MAX_FRAME_SIZE, progress at quiescence, white-box sc.flow/st.flow == monitor. non-trivial = the server emitted at least one DATA frame; states = explored event histories (stateless search), transitions = events applied to the real server and checked at quiescence, traces = histories executed to their end")
+		c.Rule("EV: for each part (write scheduler x seed prefix) every event sequence of depth 1..D after the seed over the menu {H (<=2 GET streams), handler Write(n)+Flush, handler return, WINDOW_UPDATE(conn|stream, k), SETTINGS INITIAL_WINDOW_SIZE / MAX_FRAME_SIZE, RST_STREAM, GS = the server starts a graceful shutdown (serverConn.startGracefulShutdown, what http.Server.Shutdown triggers: GOAWAY(NO_ERROR, last stream id))}, pruned by a predictive model (events on streams that are not open or whose handler is blocked are not issued; GS at most once and only while a stream is open; no H after GS) and decided on the real state at run time; each sequence runs on a fresh real http2.Server in its own synctest bubble; after every event: quiescence, drain all frames, RFC 7540 §6.9 window accounting on every DATA frame, frame length vs MAX_FRAME_SIZE, progress at quiescence, white-box sc.flow/st.flow == monitor; after a graceful GOAWAY(NO_ERROR) all of these stay in force for every stream <= its last stream id (the older stream and the last one itself), only a GOAWAY with an error code ends a case. non-trivial = the server emitted at least one DATA frame; states = explored event histories (stateless search), transitions = events applied to the real server and checked at quiescence, traces = histories executed to their end")
 		c.Assume("interleavings are explored at event granularity (one client/handler event, then run to quiescence); scheduling inside a step is Go's (L2)")
 		c.Assume("after a WINDOW_UPDATE/SETTINGS that overflows a window the client's view of that window is undefined; the monitor keeps the old value and requires the FLOW_CONTROL_ERROR the RFC mandates")
+		c.Assume("graceful shutdown: streams above the GOAWAY's last stream id are not opened (the server ignores them; outside the property); a window overflow after the graceful GOAWAY ends the case without requiring a second GOAWAY carrying FLOW_CONTROL_ERROR (a stream-window overflow must still be answered with RST_STREAM); the GOAWAY's last stream id itself is not judged")
 		c.Assume("progress is checked only as: at quiescence no live stream has flushed handler bytes off the wire while both its windows are positive (L4)")
 		c08Determinism(c, func(w *vx.W, t testing.TB) ([]string, string) {
 			res, herr := c08RunCase(w, t, c08srvCase{Cfg: c08srvCfg{Sched: "9218"}, Evs: []string{"SETIW(3)", "H", "H", "W(1,5)", "W(3,20)", "WU(1,4)", "SETIW(10)", "DONE(1)", "RST(3)"}})
